@@ -492,22 +492,25 @@ def centroid_sources(data, xpos, ypos, box_size=11, footprint=None, mask=None,
                              'mask and footprint. Also note that footprint '
                              'must be a small, local footprint.')
 
-        centroid_kwargs.update({'mask': mask_cutout})
+        # per-source copy of the keywords so that the cutout-specific
+        # values do not leak into the next source
+        source_kwargs = dict(centroid_kwargs)
+        source_kwargs.update({'mask': mask_cutout})
 
-        error = centroid_kwargs.get('error')
+        error = source_kwargs.get('error')
         if error is not None:
-            centroid_kwargs['error'] = error[slices_large]
+            source_kwargs['error'] = error[slices_large]
 
         # remove xpeak and ypeak from the dict and add back only if both
         # are specified and not None
-        xpeak = centroid_kwargs.pop('xpeak', None)
-        ypeak = centroid_kwargs.pop('ypeak', None)
+        xpeak = source_kwargs.pop('xpeak', None)
+        ypeak = source_kwargs.pop('ypeak', None)
         if xpeak is not None and ypeak is not None:
-            centroid_kwargs['xpeak'] = xpeak - slices_large[1].start
-            centroid_kwargs['ypeak'] = ypeak - slices_large[0].start
+            source_kwargs['xpeak'] = xpeak - slices_large[1].start
+            source_kwargs['ypeak'] = ypeak - slices_large[0].start
 
         try:
-            xcen, ycen = centroid_func(data_cutout, **centroid_kwargs)
+            xcen, ycen = centroid_func(data_cutout, **source_kwargs)
         except (ValueError, TypeError):
             xcen, ycen = np.nan, np.nan
 
